@@ -417,6 +417,34 @@ class Gen:
             return r.choice(seqs)
         return NUM
 
+    def stage_function(self, L):
+        """the function argument of a stage: nearly always the lambda itself; now and then a lambda with a positional-only
+        parameter / a parameter default, or an expression that only EVALUATES to the lambda (projection of a literal, variable)"""
+        r = self.r
+        if not self.odd_stage_functions or r.random() >= 0.08:
+            return L
+        k = r.choice(["posonly", "default", "tuple[0]", "tuple[-1]", "list[1]", "dict-key", "conditional"])
+        self.feat.add("stage-function:" + k)
+        decoy = lam(["zz_"], N("zz_"))
+        if k == "posonly":
+            L.args.posonlyargs, L.args.args = L.args.args, []
+            return L
+        if k == "default":
+            L.args.args.append(ast.arg(arg="unused_"))
+            L.args.defaults = [C(2)]
+            return L
+        if k == "tuple[0]":
+            return sub(ast.Tuple(elts=[L, decoy], ctx=ast.Load()), C(0))
+        if k == "tuple[-1]":
+            return sub(ast.Tuple(elts=[decoy, L], ctx=ast.Load()), C(-1))
+        if k == "list[1]":
+            return sub(ast.List(elts=[decoy, L], ctx=ast.Load()), ast.UnaryOp(op=ast.UAdd(), operand=C(1)))
+        if k == "dict-key":
+            return sub(ast.Dict(keys=[C("f"), C("g")], values=[L, decoy]), C("f"))
+        return ast.IfExp(test=ast.Compare(left=C(1), ops=[ast.Lt()], comparators=[C(2)]), body=L, orelse=decoy)
+
+    odd_stage_functions = False
+
     def chain(self, nstages, d, final_scalar=False):
         """-> (query ast, [stage kinds]).  A dataset followed by up to ``nstages`` operator stages."""
         cur = call("EventDataset")
@@ -429,18 +457,18 @@ class Gen:
             last = i == nstages - 1
             try:
                 if kind == "Where":
-                    cur = self.op("Where", cur, lam([v], self.boolean(env, d)))
+                    cur = self.op("Where", cur, self.stage_function(lam([v], self.boolean(env, d))))
                 elif kind == "SelectMany":
                     seqs = self.sources(env, ("seq_any",))
                     if not seqs:
                         kind = "Select"
                     else:
                         tgt = self.r.choice(seqs)[1]
-                        cur = self.op("SelectMany", cur, lam([v], self.seq(env, tgt, d)))
+                        cur = self.op("SelectMany", cur, self.stage_function(lam([v], self.seq(env, tgt, d))))
                         shape = tgt[1]
                 if kind == "Select":
                     tgt = NUM if (last and final_scalar) else self.rand_shape(env, 2)
-                    cur = self.op("Select", cur, lam([v], self.expr(env, tgt, d)))
+                    cur = self.op("Select", cur, self.stage_function(lam([v], self.expr(env, tgt, d))))
                     shape = tgt
             except GenFail:
                 continue
